@@ -202,86 +202,41 @@ def tla_rec(rid, tree, ti, mi, x, rb):
 
 
 # ---------------------------------------------------------------------------
-# naming of findings (projection only)
+# naming of findings.  The ATTRIBUTION is made by TLC (spec/Strl.tla Part 3): a clause that
+# fails under the specification is re-judged under the pinned-model variants of the known
+# defects; the smallest explaining set of causes comes back in the checker line.
 
 
-def shape(tree, nid=None, depth=99, seen=None):
-    byid = {n["id"]: n for n in tree["nodes"]}
-    n = byid[nid or tree["root"]]
-    seen = set() if seen is None else seen
-    t = n["type"]
-    tag = {"Choose": "C", "WindowedChoose": "W", "MalleableChoose": "M", "Allocation": "A", "Objective": "Obj", "LessThan": "Lt"}.get(t, t)
-    if t == "Scale" and n.get("disregard"):
-        tag = "Scale!"
-    if n["id"] in seen and n.get("children"):
-        return "#" + tag
-    seen.add(n["id"])
-    ch = n.get("children", [])
-    if not ch or depth == 0:
-        return tag
-    kids = [shape(tree, c, depth - 1, seen) for c in ch]
-    if t in ("Max", "Min", "Objective"):
-        # order-insensitive, multiplicities collapsed: Max(C,C,C) and Max(C,C) are one family
-        kids = sorted(set(kids))
-    return f"{tag}({','.join(kids)})"
+CAUSES = [
+    "F1_lessthan_constant_times_untied",
+    "F2_malleable_end_is_last_slot_start",
+    "F3_lessthan_row_unconditional",
+    "F4_critical_path_uint_underflow",
+    "F6_critical_path_leaves_past_only_max",
+    "F7_shared_subexpression_dead_without_passes",
+    "F8_critical_path_treats_malleable_as_rigid",
+]
 
 
-_NODE_RE = re.compile(r"node \|-> (\d+)")
-_BAD_RE = re.compile(r"bad \|-> \{([^}]*)\}")
-_KIND_RE = re.compile(r'kind \|-> "([^"]*)"')
+def tree_hash(tree):
+    return hashlib.sha1(c20_gen.canonical(tree).encode()).hexdigest()[:10]
 
 
-def lt_shapes(tree):
-    """The orderings present in a tree, e.g. 'Lt(A,Max)|Lt(Max,Max)' (the top level if none)."""
-    out = sorted({shape(tree, n["id"], depth=1) for n in tree["nodes"] if n["type"] == "LessThan"})
-    return "|".join(out) if out else shape(tree, depth=1)
-
-
-_USERS_RE = re.compile(r"users \|-> \{([^}]*)\}")
-_BEST_RE = re.compile(r"best \|-> (-?\d+), max \|-> (-?\d+), feasible \|-> (\d)")
-
-
-def where_of(tree, detail_text):
-    """Name the place of a failing clause (types only, no parameters): the local shape of the
-    node TLC points at; the kinds of the leaves that overfill a capacity cell; for a tree-level
-    clause the direction of the mismatch and the orderings in the tree."""
-    u = _USERS_RE.search(detail_text or "")
-    if u:
-        kinds = sorted(shape(tree, tree["nodes"][int(i) - 1]["id"], depth=0) for i in re.findall(r"\d+", u.group(1)))
-        return "+".join(kinds)
-    b = _BEST_RE.search(detail_text or "")
-    if b:
-        best, mx, feas = (int(x) for x in b.groups())
-        direction = "infeasible" if feas == 0 else ("higher" if mx > best else "lower")
-        return f"{direction}:{c20_gen.features(tree)}"
-    m = _NODE_RE.search(detail_text or "")
-    if m:
-        i = int(m.group(1))
-        if 1 <= i <= len(tree["nodes"]):
-            w = shape(tree, tree["nodes"][i - 1]["id"], depth=1)
-            b = _BAD_RE.search(detail_text)
-            if b:
-                w += "/" + "+".join(sorted(x.strip().strip('"') for x in b.group(1).split(",") if x.strip()))
-            else:
-                k = _KIND_RE.search(detail_text)
-                if k:
-                    w += "/" + k.group(1).replace(" ", "_")
-            return w
-    return shape(tree)
+def finding_keys(clause, causes, tree):
+    """`C20:<cause>` for every cause TLC attributes the failure to (fixed vocabulary); a
+    failure no pinned variant explains keeps a key of its own and is a new violation."""
+    if causes == "unexplained":
+        return [f"{clause}:unexplained:{tree_hash(tree)}"]
+    out = []
+    for c in causes.split("+"):
+        if c not in CAUSES:
+            raise tlc.TLCMachineryError(f"checker named an unknown cause: {causes}")
+        out.append(f"C20:{c}")
+    return out
 
 
 def cfg_label(g, mask):
-    return ("g1" if g == 1 else "coarse") + ("" if mask == 0 else "+" + "+".join(_mask_passes(mask)))
-
-
-def finding_key(clause, where, failing_cfgs):
-    """Stable key of a finding: clause + place; the configuration is part of the key only when
-    the plain configuration (g=1, no passes) of the same tree does not fail the same way."""
-    cfgs = sorted(failing_cfgs, key=lambda c: (c[0] != 1, c[1], c[0]))
-    if (1, 0) in failing_cfgs:
-        return f"{clause}:{where}"
-    g, mask = cfgs[0]
-    return f"{clause}:{where}:{cfg_label(g, mask)}"
+    return ("g1" if g == 1 else f"g{g}") + ("" if mask == 0 else "+" + "+".join(_mask_passes(mask)))
 
 
 # ---------------------------------------------------------------------------
@@ -404,14 +359,18 @@ def _chunk_in(ci, trees, tier, cfg, binary, res, scratch):
                     "C20.utility_eq",
                     f"populateResults() raised {rb['error']['kind']} on a solution of the compiled model: {rb['error']['what'][:160]}",
                     _detail(tree, inst, x, rb, "exception"),
-                    key=f"readback-exception:{rb['error']['kind']}:{shape(tree)}",
+                    key=f"C20.utility_eq:unexplained:{tree_hash(tree)}",
                 )
                 continue
             ex["readbacks"] += 1
             rec = tla_rec(rid, tree, inst["ti"] + 1, model_ix[mh], x, rb)
+            rec["cp"] = inst["mask"] & 1
+            rec["purge"] = (inst["mask"] >> 1) & 1
             if any(0 <= e["start"] < tree["now"] for e in rec["pl"]):
                 _bump(ex.setdefault("observations", {}), "placements_starting_before_now")
-            sig = hashlib.sha1(json.dumps({k2: v for k2, v in rec.items() if k2 != "id"}, sort_keys=True).encode()).hexdigest()
+            # the same read-back under another pass subset is the same record: the first (smallest)
+            # configuration it occurs in is the one it is judged / attributed in
+            sig = hashlib.sha1(json.dumps({k2: v for k2, v in rec.items() if k2 not in ("id", "cp", "purge")}, sort_keys=True).encode()).hexdigest()
             if sig in seen_recs:
                 ex["records_deduplicated"] += 1
                 continue
@@ -428,30 +387,41 @@ def _chunk_in(ci, trees, tier, cfg, binary, res, scratch):
             # a pass must not turn an error into a model either way; nothing to compare
             continue
         runs = []
-        broken = sorted([i for i in mine if "error" in i], key=lambda i: (i["g"] != 1, i["mask"], i["g"]))
-        for n_, i in enumerate(broken):
-            first = broken[0]
-            res.violate(
-                "C20.pass_invariant" if i["g"] == 1 else "C20.coarse_le",
-                f"{c20_gen.sexpr(tree)} (partitions={[p['quantity'] for p in tree['partitions']]}, now={tree['now']}) compiles at discretisation 1 without passes, "
-                f"but with g={i['g']} passes={_mask_passes(i['mask'])} the library ends in {i['error']['kind']}: {i['error']['what'][:140]}",
-                _detail(tree, i, None, None, "exception " + json.dumps(i["error"])),
-                key=f"compile-{first['error']['kind']}:{c20_gen.features(tree)}",
-            )
-        for i in mine:
+        order = sorted(mine, key=lambda i: (i["g"], i["mask"]))
+        pos = {(i["g"], i["mask"]): k + 1 for k, i in enumerate(order)}
+        for i in order:
+            run_of[i["id"]] = i
             if "error" in i:
+                kind = i["error"]["kind"]
+                what = i["error"]["what"]
+                runs.append(
+                    {
+                        "id": i["id"],
+                        "g": i["g"],
+                        "passes": i["mask"],
+                        "status": "timeout" if kind == "timeout" else "exception",
+                        "err": "max_no_child" if "must have at least one child with utility" in what else kind,
+                        "feasible": 0,
+                        "max": -1,
+                        "fine": -2,
+                        "fineix": 0,
+                    }
+                )
                 continue
             fine = next((j for j in mine if j["g"] == 1 and j["mask"] == i["mask"] and "error" not in j), None)
-            run = {
-                "id": i["id"],
-                "g": i["g"],
-                "passes": i["mask"],
-                "feasible": 1 if i["status"] == "optimal" else 0,
-                "max": i["max"] if i["status"] == "optimal" else -1,
-                "fine": -2 if fine is None else (fine["max"] if fine["status"] == "optimal" else -1),
-            }
-            runs.append(run)
-            run_of[i["id"]] = i
+            runs.append(
+                {
+                    "id": i["id"],
+                    "g": i["g"],
+                    "passes": i["mask"],
+                    "status": "ok",
+                    "err": "",
+                    "feasible": 1 if i["status"] == "optimal" else 0,
+                    "max": i["max"] if i["status"] == "optimal" else -1,
+                    "fine": -2 if fine is None else (fine["max"] if fine["status"] == "optimal" else -1),
+                    "fineix": 0 if fine is None or i["g"] == 1 else pos[(1, i["mask"])],
+                }
+            )
         batch["sums"].append({"id": tree["id"], "tree": ti + 1, "runs": runs})
     bpath = os.path.join(scratch, f"batch{ci}.json")
     with open(bpath, "w") as f:
@@ -472,7 +442,6 @@ def _chunk_in(ci, trees, tier, cfg, binary, res, scratch):
     res.traces_validated += len(batch["recs"])
     # ---- 5. verdicts
     bests = {}
-    flags, failing = [], {}
     lines = _checker_lines(r.stdout)
     if sum(1 for l in lines if l.startswith("@@BEST ")) != len(batch["sums"]) or not any(l.startswith("@@TALLY ") for l in lines):
         raise tlc.TLCMachineryError(f"Strl batch {ci}: checker output incomplete\n{r.stdout[-2000:]}")
@@ -487,11 +456,12 @@ def _chunk_in(ci, trees, tier, cfg, binary, res, scratch):
             for n_, v in zip(names, vals):
                 _bump(ex.setdefault("exercised", {}), n_, v)
             continue
-        m = re.match(r"@@ (\S+) (C20\.\w+) (.*)$", line)
+        m = re.match(r"@@ (\S+) (C20\.\w+) (\S+) (.*)$", line)
         if not m:
             raise tlc.TLCMachineryError(f"unparsable checker line: {line}")
-        rid, clause, dtext = m.groups()
+        rid, clause, causes, dtext = m.groups()
         _bump(ex["clause_flags"], clause)
+        _bump(ex.setdefault("attribution", {}), causes)
         if rid in rec_of:
             inst, x, rb = rec_of[rid]
         elif rid in run_of:
@@ -499,19 +469,16 @@ def _chunk_in(ci, trees, tier, cfg, binary, res, scratch):
         else:
             raise tlc.TLCMachineryError(f"checker line for unknown record: {line}")
         tree = trees[inst["ti"]]
-        where = where_of(tree, dtext)
-        group = "best" if clause in ("C20.best_eq", "C20.pass_invariant") else clause
-        flags.append((inst, x, rb, clause, dtext, where, group))
-        failing.setdefault((inst["ti"], group, where), set()).add((inst["g"], inst["mask"]))
-    for inst, x, rb, clause, dtext, where, group in flags:
-        tree = trees[inst["ti"]]
-        res.violate(
-            clause,
-            f"{clause} fails for {'a solution of the model compiled from ' if x is not None else ''}{c20_gen.sexpr(tree)} "
-            f"(partitions={[p['quantity'] for p in tree['partitions']]}, now={tree['now']}, g={inst['g']}, passes={_mask_passes(inst['mask'])}): {dtext[:220]}",
-            _detail(tree, inst, x, rb, dtext),
-            key=finding_key(clause, where, failing[(inst["ti"], group, where)]),
-        )
+        if "error" in inst and x is None:
+            dtext += " " + json.dumps(inst["error"])
+        for key in finding_keys(clause, causes, tree):
+            res.violate(
+                clause,
+                f"[{causes}] {clause} fails for {'a solution of the model compiled from ' if x is not None else ''}{c20_gen.sexpr(tree)} "
+                f"(partitions={[p['quantity'] for p in tree['partitions']]}, now={tree['now']}, g={inst['g']}, passes={_mask_passes(inst['mask'])}): {dtext[:260]}",
+                _detail(tree, inst, x, rb, dtext),
+                key=key,
+            )
     # samples: first tree of the chunk with its optimum
     for t in trees[:1]:
         mine = [i for i in insts if i["ti"] == 0 and "sols" in i]
